@@ -151,7 +151,7 @@ def precondition(asym, imgs):
     for im in imgs:
         if np.any(np.abs(im["com"] - np.rint(im["com"])) < 1e-6):
             return False, "centre of mass on a cell face"
-    # intermolecular, periodic: replicate all atoms over 27 cells
+    # intermolecular, periodic: replicate all atoms over the neighbouring cells
     pts, owner, covs = [], [], []
     for k, im in enumerate(imgs):
         pts.append(im["frac"])
@@ -163,7 +163,10 @@ def precondition(asym, imgs):
     maxthr = 2 * covs.max() + BOND_TOL + MARGIN
     base = pts @ M
     tree = cKDTree(base)
-    for cell in itertools.product((-1, 0, 1), repeat=3):
+    # neighbouring cells: enough shells to cover the fractional extent of the atoms (molecules are wrapped by their centre
+    # of mass only, so a long molecule reaches several cells away)
+    reach = [int(np.ceil(pts[:, k].max() - pts[:, k].min())) for k in range(3)]
+    for cell in itertools.product(*[range(-r, r + 1) for r in reach]):
         shifted = (pts + np.array(cell)) @ M
         t2 = cKDTree(shifted)
         pairs = tree.sparse_distance_matrix(t2, maxthr, output_type="coo_matrix")
